@@ -307,16 +307,25 @@ namespace smt
         }
         case 2:
         {
-            const auto expr = l / l.vars.cbegin()->second;
+            const rational cf = l.vars.cbegin()->second; // the leading coefficient: l = cf * (v0 - v1) + known_term..
+            const auto expr = l / cf;
             auto it = expr.vars.cbegin();
             const auto [v0, c0] = *it++;
             assert(c0 == rational::ONE);
             const auto [v1, c1] = *it;
             if (c1 != -rational::ONE)
                 throw std::invalid_argument("not a valid real difference logic expression..");
-            const auto dist = distance(v0, v1);
-            c_lb += dist.first + expr.known_term;
-            c_ub += dist.second + expr.known_term;
+            const auto dist = distance(v1, v0); // the bounds of v0 - v1..
+            if (is_positive(cf))
+            {
+                c_lb += dist.first * cf + l.known_term;
+                c_ub += dist.second * cf + l.known_term;
+            }
+            else
+            { // a negative coefficient swaps the roles of the two bounds..
+                c_lb += dist.second * cf + l.known_term;
+                c_ub += dist.first * cf + l.known_term;
+            }
             break;
         }
         default:
